@@ -64,3 +64,34 @@ def run(items, fn, nthreads=4, chunk=40, switch=1e-6, join_timeout=300):
             overl += 1
     hist = [r for o in out for r in o]
     return hist, {"executions": len(hist), "overlapped_items": overl, "threads": nthreads, "threads_stuck": alive}
+
+
+def differential(M, items, one, sig, nthreads=6, chunk=40, monitor="concurrent", show=repr):
+    """Property-agnostic use of run(): `one(item)` (a deterministic library call returning a comparable value) is evaluated
+    by several threads at once with the contracts silenced, then once more single-threaded WITH the contracts active (so
+    the ordinary oracle judges that reference value); every recorded outcome must be the reference outcome - same value, or
+    the same exception type.  Returns the stats of run()."""
+    M.quiet += 1
+    try:
+        hist, st = run(items, one, nthreads=nthreads, chunk=chunk)
+    finally:
+        M.quiet -= 1
+    ref = []
+    for it in items:
+        try:
+            ref.append(("ok", one(it)))
+        except Exception as e:  # noqa: BLE001
+            ref.append(("exc", type(e).__name__))
+    for t, i, kind, v in hist:
+        r = ref[i]
+        if kind == "exc":
+            ok = r == ("exc", type(v).__name__)
+            M.check(monitor, ok, f"{sig}:raised-{type(v).__name__}", "a call raised while other threads made the same calls (it does not single-threaded)",
+                    item=show(items[i])[:300], exc=repr(v)[:200], thread=t, single_threaded=repr(r)[:200])
+        else:
+            ok = r == ("ok", v)
+            M.check(monitor, ok, f"{sig}:differs-from-single-threaded", "a call made while other threads made the same calls returned another value than single-threaded",
+                    item=show(items[i])[:300], got=repr(v)[:300], thread=t, single_threaded=repr(r)[:300])
+    for k_, v_ in st.items():
+        M.count("concurrent." + k_, v_)
+    return st
